@@ -227,7 +227,7 @@ def run(ck):
                    "that the spline quadrature of measure_reorganization_energy reproduces the integral of the closed form is measured, "
                    "not proved (reorg_closed_form / reorg_window are about the closed form)"]
     tabs = extract(ck)
-    ck.prove(PROPS, extra_modules=["QV.Props.C09Analytic", "QV.Drive.C09"])
+    ck.prove(PROPS, extra_modules=["QV.Drive.C09"], also=["QV.Props.C09Analytic"])
     if tabs is None:
         tabs = {"cf": {"kinds": list(KINDS) + ["Value-defined"]}, "sd": {"kinds": list(KINDS)[1:] + ["Value-defined"]}}
     ta = TimeAxis(0.0, ck.n(150, 400), 5.0)
